@@ -33,6 +33,18 @@ CHECKS = {
                 technique='deterministic simulation with fault injection: disconnection (FIN/RST/silence) enumerated after every byte prefix of every scripted conversation, RST placed exactly before each write, connect failures, stop requests at every quiescent point, provider stalls; bounded-liveness oracle in virtual time',
                 text='16 conversations (echo, multi-fragment store, pipelining, release and abort from either side, reject, unknown PDU, both release collisions, find; both roles) on the real provider loop: the peer stream is cut after every byte prefix and ended by FIN, RST or silence (thorough: all three at every offset), the connection is reset exactly before the k-th PDU write, connect() is refused or times out, kill() is requested at every quiescent point, the provider thread is stalled; within ARTIM+1 s of virtual time the provider must be idle with the connection closed, the user told, and kill() must return with the loop finished.',
                 note='silence must only end the provider where ARTIM is armed; Association.kill/release/abort on real AEs are exercised by the P2 workloads (C14/C15/C20); TCP model: FIN/RST ordering only'),
+    'C06': dict(cat='exploration', ref='6/C06',
+                technique='deterministic simulation: real Association.send -> provider thread -> simulated wire under seeded schedules while the caller keeps sending/mutating; wire monitor (reference parser and reassembler) against a send-time snapshot; size grid sampled',
+                text='A real ClientAE sends seeded lists of messages (all 23 classes, data set absent/bytes/file, sizes at k*(max-6)+{-2..2}, context ids 1..255, the same object changed and re-sent) to a scripted acceptor for maxima 7..65536 imposed by either side; every P-DATA-TF the provider thread writes is parsed by R-codec and checked for the length bound, non-empty PDVs, context id, command-before-data order, control bits, exactly one last fragment per stream, and byte-exact equality of command set and data set with the snapshot taken when send() was called. Thorough sweeps max 7..40 x length 0..3*(max-6)+2 through the stack.',
+                note='the fragment arithmetic itself is a pure function: its input grid is sampled, not decided; snapshot taken by wrapping Association.send from outside'),
+    'C08': dict(cat='exploration', ref='6/C08',
+                technique='deterministic simulation: same send path as C06 with messages re-sent from one object under seeded schedules; independent implicit-VR-LE command-group reader on every transmitted command stream',
+                text='Every command stream that reaches the simulated wire must have (0000,0000) first and equal to the number of bytes that follow, strictly ascending tags, even lengths, Command Field equal to the class code, Command Data Set Type = 0101H iff no data fragment follows, and element values equal to the send-time snapshot - for all 23 classes, seeded field values (UID lengths 1..64, 16-bit boundaries, optional fields empty) and for the same object sent up to three times with changed fields.',
+                note='field-value grid sampled; the schedule-dependent part (encoding happens in another thread than send()) is what the simulator controls'),
+    'C10': dict(cat='exploration', ref='6/C10',
+                technique='deterministic simulation: both roles of the real association layer against scripted peers over the full boundary grid of (configured, announced) maxima, with a bounded-virtual-time delivery (liveness) oracle in both directions',
+                text='All 100 pairs over {0,7,8,127,128,1024,16384,65536,2^31,2^32-1} x both roles: the Maximum Length the library announces is its configured value or less (0 only if configured 0), no P-DATA-TF it sends exceeds the peer\'s announced value unless that is 0, every message it sends (sizes below, at and three times the fragment size) is completely received by the peer and every message the peer sends within the announced limit is delivered to the application.',
+                note='recv(n) of the simulated socket does not model allocating n bytes; data sizes capped at 6000 bytes'),
 }
 
 
